@@ -27,7 +27,7 @@ def run_cql(prop, tier):
     v = Verdict(prop)
     with Scratch(prop.lower()) as s:
         h = build_harness(s)
-        res = require_ok(run_tlc(s, "CqlValue", marker='"CQL"', workers=1, timeout=1200), "CqlValue")
+        res = require_ok(run_tlc(s, "CqlValue", marker='"CQL"', workers=1, timeout=3600, env=dict(VERIF_DEEP="1" if tier == "thorough" else "0")), "CqlValue")
         cases = marker_json(res.lines, '"CQL"')
         with open(s.file("cases.ndjson"), "w") as f:
             for c in cases:
